@@ -269,6 +269,7 @@ def run(ctx):
                         ctx.ob(name, None, "model reports '%s' but the compiled crate does not (%s)" % (bad[1], real))
     every_terminator(ctx, q, mf, ms, registry, fields, nid, pre, rp)
     every_method_no_panic(ctx, q, mf, ms, registry, fields, nid, pre, rp)
+    select_by_name(ctx, q, mf, ms, registry, fields, nid, pre, rp)
     rp.close()
     ctx.validated = rp.count
     ctx.extra["states"] = nstates
@@ -276,6 +277,103 @@ def run(ctx):
     ctx.extra["cvc5"] = q.summary()
     ctx.extra["explanation"] = ("Every (shape, valid selection, call) triple is executed symbolically from the Builder's MIR with the id counter symbolic; "
                                 "post-conditions and invariant checked per path; counter arithmetic by z3.")
+
+
+def select_by_name(ctx, q, mf, ms, registry, fields, nid, pre, rp):
+    """`select_function_by_name` from EVERY valid selection of a module with two finished, named functions of different block
+    counts (2 and 1): executed from MIR with the function ids symbolic (pairwise distinct) and the OpName instructions concrete
+    (names "a", "b", a name "c" on a non-function id, a later duplicate "b" on function 0). No panic edge may be feasible, the
+    selection afterwards must designate an existing function and block or nothing, an unknown name fails and changes nothing."""
+    nb = (2, 1)
+    shape = (2, nb[0], nb[1], 1)
+    bidx = {n: i for i, n in enumerate(fields["Builder"])}
+    midx = {n: i for i, n in enumerate(fields["Module"])}
+    fidx = {n: i for i, n in enumerate(fields["Function"])}
+    ids = [z3.BitVec("fid0", 32), z3.BitVec("fid1", 32), z3.BitVec("other", 32)]
+    distinct = [z3.Distinct(*ids)]
+    c = [x for x in mf.find("select_function_by_name") if "dr/build/" in x[0] and "closure" not in x[0]]
+    if len(c) != 1:
+        raise Inconclusive("Builder::select_function_by_name: %d MIR candidates" % len(c))
+    fn = mf.parse_item(c[0][2])
+    ctx.functions.add("dr::Builder::select_function_by_name")
+    ctx.bounds.append("select_function_by_name: module of two finished functions (2 blocks, 1 block), four OpName instructions, every valid "
+                      "selection, names a/b/c/zz; function ids symbolic and pairwise distinct")
+    expect = {"a": 0, "b": 1, "c": None, "zz": None}
+    sels = [(None, None), (0, None), (0, 0), (0, 1), (1, None), (1, 0)]
+    for sel_f, sel_b in sels:
+        for name in sorted(expect):
+            mem = {}
+
+            def cls(tag, op):
+                mem[("h", tag)] = sym.Adt("grammar::Instruction", None, [sym.StrV("?"), z3.BitVecVal(op, 32), sym.Sym("caps" + tag, "&[Capability]"),
+                                                                         sym.Sym("exts" + tag, "&[&str]"), sym.Sym("operands" + tag, "&[LogicalOperand]")])
+                return sym.Ref(("h", tag), ())
+            b0 = make_state(shape, sel_f, sel_b, nid, fields, True)
+            module = b0.fields[bidx["module"]]
+            nfs = []
+            for k, f in enumerate(module.fields[midx["functions"]].items):
+                fl = list(f.fields)
+                fl[fidx["def"]] = some(sym.Adt("Instruction", None, [cls("cf%d" % k, 54), some(z3.BitVecVal(7, 32)), some(ids[k]), sym.Arr([], "vec")]))
+                nfs.append(sym.Adt("Function", None, fl))
+            names = []
+            for k, (target, nm) in enumerate([(ids[0], "a"), (ids[1], "b"), (ids[2], "c"), (ids[0], "b")]):
+                names.append(sym.Adt("Instruction", None, [cls("cn%d" % k, 5), none(), none(),
+                                                           sym.Arr([sym.Adt("dr::constructs::Operand", "IdRef", [target]),
+                                                                    sym.Adt("dr::constructs::Operand", "LiteralString", [sym.StrV(nm)])], "vec")]))
+            ml = list(module.fields)
+            ml[midx["functions"]] = sym.Arr(nfs, "vec")
+            ml[midx["debug_names"]] = sym.Arr(names, "vec")
+            bl = list(b0.fields)
+            bl[bidx["module"]] = sym.Adt("Module", None, ml)
+            b0 = sym.Adt("Builder", None, bl)
+            mem[("h", "b")] = b0
+            eng = sym.Engine([mf, ms], registry, models=MODELS, eager=True, loop_bound=8)
+            tag = "builder/select_function_by_name/sel=%s,%s/%s" % (sel_f, sel_b, name)
+            try:
+                res = eng.run(fn, [sym.Ref(("h", "b"), (), True), sym.StrV(name)], mem=mem, pc=list(pre) + distinct)
+            except mir.Unsupported as ex:
+                ctx.ob(tag, None, "not encodable: %s" % str(ex)[:200])
+                continue
+            bad = None
+            for r in res:
+                st, m = q.check(r.pc, "by-name-path-feasible")
+                if st == "unsat":
+                    continue
+                if r.status != "return":
+                    bad = ("panics", "%s %s" % (r.status, r.info))
+                    break
+                b1 = r.mem[("h", "b")]
+                ok = not (isinstance(r.value, sym.Adt) and r.value.variant == "Err")
+                f1, bl1 = optval(b1.fields[bidx["selected_function"]]), optval(b1.fields[bidx["selected_block"]])
+                if ok != (expect[name] is not None):
+                    bad = ("accepts-unknown-name" if ok else "rejects-known-name", "returns %r for name %r" % (r.value, name))
+                elif ok and f1 != expect[name]:
+                    bad = ("selects-wrong-function", "selected_function=%s for name %r (function %s bears it first)" % (f1, name, expect[name]))
+                elif ok and bl1 is not None and not (isinstance(bl1, int) and bl1 < nb[f1]):
+                    bad = ("stale-block-selection", "selected_block=%s but function %s has %d block(s)" % (bl1, f1, nb[f1]))
+                elif not ok and not same(b1, b0):
+                    bad = ("failed-call-changed-builder", "returns Err but the builder differs")
+                if bad:
+                    break
+            if bad is None:
+                ctx.ob(tag, True)
+                continue
+            real = rp.ask("select_by_name %s %s %s" % ("-" if sel_f is None else sel_f, "-" if sel_b is None else sel_b, name))
+            res_s = str(real.get("result", ""))
+            rf, rb, rn = real.get("sel_f"), real.get("sel_b"), real.get("nblocks")
+            confirmed = "panic" in real or \
+                (bad[0] == "accepts-unknown-name" and res_s.startswith("Ok")) or (bad[0] == "rejects-known-name" and res_s.startswith("Err")) or \
+                (bad[0] == "selects-wrong-function" and res_s.startswith("Ok") and rf != expect[name]) or \
+                (bad[0] == "stale-block-selection" and rb is not None and (rn is None or rb >= rn or real.get("usable") is False)) or \
+                (bad[0] == "failed-call-changed-builder" and res_s.startswith("Err") and (rf, rb) != (sel_f, sel_b))
+            if confirmed:
+                ctx.ob(tag, False, "%s; native: %s" % (bad[1], str(real)[:200]))
+                ctx.violation("builder/select_function_by_name/%s" % bad[0],
+                              "two functions (2 blocks, 1 block), selection (%s, %s), select_function_by_name(%r): %s; on the compiled crate: %s"
+                              % (sel_f, sel_b, name, bad[1], str(real)[:300]),
+                              {"cmd": "select_by_name %s %s %s" % ("-" if sel_f is None else sel_f, "-" if sel_b is None else sel_b, name), "real": real})
+                return
+            ctx.ob(tag, None, "model reports '%s' but the compiled crate does not show it: %s" % (bad[1], str(real)[:200]))
 
 
 def every_method_no_panic(ctx, q, mf, ms, registry, fields, nid, pre, rp):
